@@ -76,12 +76,12 @@ The misses and what was changed (every one is caught now; no check was loosened 
   group's attributes, marker included, before the datasets): the source of every interrupted write was a fresh in-memory collection; the death-mode streams now have a SOURCE CONTAINER dimension (views, an open HDF5Signatures with foreign attributes / in a sub-group / under AnnotatedSignatures, user subclasses); the round-7 C19 change (the same idea through a block-copy fast path) was then caught at once.
 
 * Round 7: 14 of 20 caught at once.  C02 (SignatureList caches a concatenated copy that `__setitem__` / `reverse` do not
-  invalidate): ROUND7_C02.  C04 (index-array reads merged into runs by a shift measured against the wrong slot edge:
-  wrong only when neighbouring signature sizes coincide arithmetically): ROUND7_C04.  C06 (contigs above 2^20 nt
-  searched in windows that overlap by k-1 instead of prefix+k-1): ROUND7_C06.  C11 (CSV exporter defaults override
-  the options of a `dialect=`): ROUND7_C11.  C15 (SignatureList memoises a packed copy, rebuilt only when the length
-  changes): ROUND7_C15.  C16 (all-pairs kernel chunked at 1000 columns, mirror copy only for the last chunk: needs
-  `--square` with 1002 or more queries): ROUND7_C16.
+  invalidate): no stream mutated a list-type reference container between two bulk calls; kind `mutate` keeps one mutable container (SignatureList, plain list, AnnotatedSignatures, SignatureArray through its views) across call / mutation / call sequences with 22 mutations and judges every cell against the current members.  C04 (index-array reads merged into runs by a shift measured against the wrong slot edge:
+  wrong only when neighbouring signature sizes coincide arithmetically): stored signature lengths were unrelated random numbers, never equal, never zero; stream `size-structure` uses a second pool of sizes 0..6 with pairwise distinct contents, enumerates 178 layouts g(a) x(b) g(c) (chains, adjacent genomes, extras before and after) and random size palettes.  C06 (contigs above 2^20 nt
+  searched in windows that overlap by k-1 instead of prefix+k-1): no contig was ever longer than 2^20 letters; kind `long` generates contigs whose lengths cross 2^16, 2^20, 2^21 (up to 8*2^20 in thorough) with occurrences planted on both strands in touching ladders across every multiple and flush with both ends, judged against the harness's own reference.  C11 (CSV exporter defaults override
+  the options of a `dialect=`): almost no CSV option set passed `dialect=` and the reader was not given the same dialect; kind `dialect` passes the dialect as registered name, class or instance (3 standard and 14 harness dialects: QUOTE_NONE with escapechar, ALL, NONNUMERIC, doublequote off, other quote / delimiter / line terminator) alone and with 14 keyword overrides and reads back with exactly the same settings.  C15 (SignatureList memoises a packed copy, rebuilt only when the length
+  changes): sequence scripts drew a dtype per member, so no SignatureList was uniform (the memo needs that), and had no length-preserving reordering; the new product stream crosses uniform-dtype SignatureList / list / AnnotatedSignatures with every bulk role and ten length-preserving changes (negative index, equal-length and stepped slices, reverse, swap, move, replace, in-place element write).  C16 (all-pairs kernel chunked at 1000 columns, mirror copy only for the last chunk: needs
+  `--square` with 1002 or more queries): the largest square case had 30 genomes; stream `size-class` runs sides of 1001..2600 tiny signatures (classes of equal signatures make a 10^6-cell oracle cheap) through `--square`, `--qs X --rs X`, narrow tables and the library functions with NaN-prefilled `out=`.
 
 **Behaviour-preserving rewrites (the opposite experiment).**  A check that alarms on correct code is as
 useless as one that misses a defect, so after round 3 twenty fresh sub-agents (same isolation: the
